@@ -68,6 +68,18 @@ func notPrinterOnly(name string) EngineSpec {
 	}}
 }
 
+// notQueryMode drops obligations that only matter when a row was requested (C04's space).
+func notQueryMode(name string) EngineSpec {
+	return EngineSpec{Name: name, Filter: func(w *World, o Obligation) bool { return !strings.Contains(o.Detail, queryModeMark) }}
+}
+
+// lookupsOrQueryMode keeps the lookup-miss obligations (and anything marked query-mode).
+func lookupsOrQueryMode(name string) EngineSpec {
+	return EngineSpec{Name: name, Filter: func(w *World, o Obligation) bool {
+		return o.Rule == "NT-lookup" || strings.Contains(o.Detail, queryModeMark)
+	}}
+}
+
 func and(a, b EngineSpec) EngineSpec {
 	return EngineSpec{Name: a.Name, Filter: func(w *World, o Obligation) bool {
 		return (a.Filter == nil || a.Filter(w, o)) && (b.Filter == nil || b.Filter(w, o))
@@ -131,7 +143,7 @@ func propertyIDs() []string {
 
 func init() {
 	claim("C01", PropertySpec{
-		Engines: []EngineSpec{all("NT"), rules("REG", "REG-dyn", "REG-type", "REG-exit"), notPrinterOnly("IX"), all("TA"), rules("ED", "ED-1", "ED-3")},
+		Engines: []EngineSpec{notQueryMode("NT"), rules("REG", "REG-dyn", "REG-type", "REG-exit"), notPrinterOnly("IX"), all("TA"), rules("ED", "ED-1", "ED-3")},
 		Clause: "Structural necessary conditions of 'never crashes', decided on every path of the current source: (NT) no nil dereference on the end-of-input path of any of the token-read call sites, and none on the miss path of any table-lookup call site; (REG-dyn) unchecked evaluator-registry lookups use registered keys and every evaluator type is registered; (REG-type) every constructible kind of T has a case in the panicking rendering switch; (REG-exit) explicit panics / non-zero exits reachable from main are exactly the reviewed set; (IX) every constant-position index/slice and every variable index into a fixed array is guarded on all paths, structurally bounded, guarded by all callers, or individually reviewed; (TA) every unchecked type assertion is dominated by a check of the same type on the same storage, discharged by the lexer kind/value pairing analysis or by a container invariant, or individually reviewed; (ED-1, ED-3) diagnostics are recorded by a single writer in one format and their text cannot contain a line break. The behaviour itself (exit status, output format) is not decided.",
 		NotCovered: "variable-index bounds, nil values stored in slices/fields and dereferenced later, stack exhaustion, out-of-memory, rendering text, correlated-predicate paths (reviewed exceptions listed)",
 	}, propMeta{Technique: "abstract interpretation over go/ssa (nilness/constant lattice, interprocedural summaries, EOF and lookup-miss environments) + registry exhaustiveness over resolved constants + call-graph reachability of exits",
@@ -155,8 +167,8 @@ func init() {
 		LevelNote: "trusts go/types constant evaluation; the token-kind field and the read switch are resolved by role (rune field of Lexer, switch on the rune field of Parser in the read primitive)", DesignRef: "4 EL, REG-tok, REG-eos; 5 C03"})
 
 	claim("C04", PropertySpec{
-		Engines: []EngineSpec{fromPrinters("REC"), printerOnly("IX")},
-		Clause: "C01's and C02's rules restricted to the code reachable (VTA call graph) from the editor-query printers of package cmd (functions taking the finished Parser by value): graph recursion over the inheritance table is cycle-guarded, and every constant-position index in the printers' own code is guarded or reviewed (the printers contain no token reads and no table lookups, so NT and EL have no instance there).",
+		Engines: []EngineSpec{fromPrinters("REC"), printerOnly("IX"), lookupsOrQueryMode("NT")},
+		Clause: "C01's and C02's rules restricted to the code reachable (VTA call graph) from the editor-query printers of package cmd (functions taking the finished Parser by value): graph recursion over the inheritance table is cycle-guarded, and every constant-position index in the printers' own code is guarded or reviewed; plus the code that runs only when a row was requested: at every table-lookup call site (all of them are re-checked here, because the target capture `if LspTargetRow == ErrorRow { … }` follows lookups throughout the strategies) a miss is not dereferenced, in particular not inside a block dominated by the requested-row comparison.",
 		NotCovered: "which records are printed; index guards in the printers (claimed with IX when built); hangs and crashes of the analysis that precedes the printers are reported under C01/C02",
 	}, propMeta{Technique: "call-graph reachability from the query printers + the REC/NT/EL rules on the reachable functions",
 		LevelText: "all functions reachable from the printers are enumerated from the call graph on every run and each rule instance in them is decided.",
@@ -202,9 +214,9 @@ func init() {
 		LevelNote: "accepted repairs: save/restore of *recv in a defer, or delegation to a fresh value", DesignRef: "4 SE, PAIR; 5 C10"})
 
 	claim("C11", PropertySpec{
-		Engines: []EngineSpec{all("SE"), funcs("TB", "checkAndPropagateArgsForUnion")},
-		Clause: "The two global-state channels that are structurally checkable: evaluator and strategy singletons (43 types in the two registries) carry no state across (nested) evaluations — no store through the receiver in any method that can run on the singleton (SE); and the union-receiver call path does not accumulate return types into shared method-table entries (TB, the channel the property names; the full table-immutability rule is C12).",
-		NotCovered: "the stale lastEvaluatedT / isParsingExpression channel, GenId numbering",
+		Engines: []EngineSpec{all("SE"), funcs("TB", "checkAndPropagateArgsForUnion"), all("RS")},
+		Clause: "The two global-state channels that are structurally checkable: evaluator and strategy singletons (43 types in the two registries) carry no state across (nested) evaluations — no store through the receiver in any method that can run on the singleton (SE); and the union-receiver call path does not accumulate return types into shared method-table entries (TB, the channel the property names; the full table-immutability rule is C12); and parser fields that carry per-call state from method evaluation to block/definition evaluation are reset when the next method evaluation starts, cleared by a defer, or consumed on read (RS).",
+		NotCovered: "the isParsingExpression flag, GenId numbering, per-call state kept outside the parser",
 	}, propMeta{Technique: "receiver-alias/effect analysis of registered singletons over go/ssa",
 		LevelText: "all registered types and all methods reachable on the shared receiver are enumerated and decided.",
 		LevelNote: "registries are resolved by role: package-level maps whose element type is a module interface", DesignRef: "4 SE; 5 C11"})
@@ -229,8 +241,8 @@ func init() {
 	}, propMeta{Technique: "def-use rule on the binder's parameter over go/ssa + comparator shape check", LevelText: "all callers of the canonicaliser are enumerated; each use of the raw parameter is decided.", LevelNote: "canonicaliser resolved by role: func([]*T) []*T that partitions and sorts", DesignRef: "4 ORD-canon; 5 C14"})
 
 	claim("C15", PropertySpec{
-		Engines: []EngineSpec{rules("PAIR", "PAIR-snap"), rules("REG", "REG-rounds")},
-		Clause: "Argument types saved before a method body is analysed are restored on every exit (must-pass-through from the snapshot call to the restore call), and the round protocol is consistent (every round name compared is produced; diagnostics are recorded in the last round).",
+		Engines: []EngineSpec{rules("PAIR", "PAIR-snap"), rules("REG", "REG-rounds"), rules("ORD", "ORD-agree")},
+		Clause: "Argument types saved before a method body is analysed are restored on every exit (must-pass-through from the snapshot call to the restore call), the round protocol is consistent (every round name compared is produced; diagnostics are recorded in the last round), and the binder's two canonical orders agree: call-site keywords are sorted by the stored key text, the same text the parameter names are sorted by (otherwise an argument is matched with the wrong parameter or never propagated).",
 		NotCovered: "the propagation rules themselves",
 	}, propMeta{Technique: "must-pass-through over the SSA CFG + agreement of string constants", LevelText: "all snapshot call sites and all round comparisons are enumerated and decided.", LevelNote: "snapshot/restore functions resolved by role (writer/reader of the package-level map[FrameKey]T)", DesignRef: "4 PAIR, REG-rounds; 5 C15"})
 
@@ -253,8 +265,8 @@ func init() {
 	}, propMeta{Technique: "dominance over the SSA CFG of the analysis loop with call-graph print summaries + provenance (root object) comparison of record components", LevelText: "all printing calls of the loop and all file+row record assemblies are enumerated and decided.", LevelNote: "file-name fields are anchored by name (FileName); integer row parameters are followed to their call sites", DesignRef: "4 ORD-load, ORD-prov; 5 C18"})
 
 	claim("C19", PropertySpec{
-		Engines: []EngineSpec{rules("ORD", "ORD-overload")},
-		Clause: "The loader's 'method already exists → overload' test must be an exact-key lookup: it must not reach, in the call graph, a function that walks the inheritance table (then the answer depends on which extends edges earlier files created, i.e. on file names and splitting).",
+		Engines: []EngineSpec{rules("ORD", "ORD-overload", "ORD-lastwins")},
+		Clause: "The loader's 'method already exists → overload' test must be an exact-key lookup: it must not reach, in the call graph, a function that walks the inheritance table (then the answer depends on which extends edges earlier files created, i.e. on file names and splitting); and no store of the loader into a shared keyed table is a plain overwrite (it is guarded by a test reading the same entry, or accumulates onto it), so that no 'last file wins'.",
 		NotCovered: "every other order dependence of the loader (documents, registry order)",
 	}, propMeta{Technique: "call-graph reachability from the lookup used by the overload test", LevelText: "both overload sites are enumerated and decided.", LevelNote: "overload sites resolved by role: stores to the Overloads field in package builtin", DesignRef: "4 ORD-overload; 5 C19"})
 
